@@ -33,8 +33,8 @@ ASSUMPTIONS = [
     "unordered mode: results of a batch are delivered together, batches in completion (callback) order",
 ]
 SHARDS = {"quick": 12, "thorough": 14}
-FLOORS = {"quick": {"promptness_checks": 3000, "calls": 600, "closes": 100, "drops": 60, "overlapping_calls_rejected": 60, "real_promptness_checks": 60, "completions_during_abort": 100},
-          "thorough": {"promptness_checks": 60000, "calls": 12000, "closes": 2000, "drops": 1200, "overlapping_calls_rejected": 1200, "real_promptness_checks": 900, "completions_during_abort": 2000}}
+FLOORS = {"quick": {"promptness_checks": 3000, "calls": 600, "closes": 100, "drops": 60, "overlapping_calls_rejected": 60, "real_promptness_checks": 60, "completions_during_abort": 100, "second_calls_while_first_generator_holds_results": 50},
+          "thorough": {"promptness_checks": 60000, "calls": 12000, "closes": 2000, "drops": 1200, "overlapping_calls_rejected": 1200, "real_promptness_checks": 900, "completions_during_abort": 2000, "second_calls_while_first_generator_holds_results": 1000}}
 
 DUE_WAIT = 5.0
 
@@ -52,6 +52,8 @@ def cases(tier, seed):
         yield dict(kind="real", i=i)
     for i in range(60 if tier == "quick" else 1200):
         yield dict(kind="exitwith", i=i)
+    for i in range(80 if tier == "quick" else 1600):
+        yield dict(kind="hold", i=i)
 
 
 class Puller:
@@ -194,7 +196,7 @@ def run_case(case, ctx):
     # the whole sequence runs in one consumer thread (so that dispatch, pulls and close() happen in the same thread,
     # as in user code); this thread only watches it
     from vlib.scripted_backend import stacks
-    t = threading.Thread(target=guard(run_scripted, ctx), args=(case, ctx), daemon=True)
+    t = threading.Thread(target=guard(run_hold if case["kind"] == "hold" else run_scripted, ctx), args=(case, ctx), daemon=True)
     t.start()
     t.join(150)
     if t.is_alive():
@@ -431,6 +433,106 @@ def run_scripted(case, ctx):
     drain(be)
     if case["i"] % 70 == 0:
         ctx.sample(dict(cfg, calls=actions))
+
+
+def run_hold(case, ctx, prefix=""):
+    """every task of call 1 has completed but its generator still holds results the consumer has not taken; the same
+    object is then called again (a finished run: legitimate; RuntimeError would be acceptable too).  Call 2 must
+    deliver exactly its own results and the rest of call 1 must still come out of the first generator, each once."""
+    from joblib import Parallel, delayed
+    from vlib.scripted_backend import ScriptedBackend, Src, Trace
+
+    rng = harness.rng_for(ctx.seed, ID, "hold", case["i"])
+    J = rng.choice([2, 3, 4])
+    b = rng.choice([1, 1, 2, 3])
+    pd = rng.choice(["2*n_jobs", "n_jobs", 1, 3, "all"])
+    mode = rng.choice(["generator", "generator", "generator_unordered"])
+    trace = Trace()
+    be = ScriptedBackend(trace=trace)
+    p = Parallel(n_jobs=J, backend=be, return_as=mode, batch_size=b, pre_dispatch=pd)
+    cfg = dict(J=J, b=b, pd=pd, mode=mode, scenario="second call while the first generator still holds results")
+    N1, N2 = rng.choice([2, 3, 5, 8, 12]), rng.choice([1, 2, 4, 7])
+    take_before = rng.randint(1, N1 - 1)        # taken after every task completed, before the second call
+    order_of = {}
+
+    def complete_all(tag, n):
+        order = []
+        for _ in range(400):
+            if sum(len(f.items) for f in order) >= n:
+                return order
+            pend = be.pending_snapshot()
+            if not pend:
+                if not be.wait_pending(1, timeout=3.0):
+                    return None
+                continue
+            f = rng.choice(pend)
+            if be.complete(f, thread=True, wait=True) is not True:
+                return None
+            order.append(f)
+        return None
+
+    def take(g, k, tag, done, delivered, what):
+        for _ in range(k):
+            pl = Puller(g)
+            pl.start()
+            r = pl.get(DUE_WAIT)
+            if r is None:
+                ctx.violation(prefix + "nontermination:next-blocked", f"{what}: a completed result was not delivered; {cfg}", cfg)
+                return False
+            if r[0] != "v":
+                ctx.violation(prefix + "due-result-not-delivered", f"{what}: next() gave {r[0]} {r[1]!r}; {cfg}", cfg)
+                return False
+            want = expected_next(mode, tag, delivered, done)
+            if r[1] != want:
+                ctx.violation(prefix + "results-of-another-call", f"{what}: next() delivered {r[1]} but {want} was promised (N1={N1}, N2={N2}, "
+                                                               f"taken from the first generator before the second call: {take_before}); {cfg}", dict(cfg, N1=N1, N2=N2))
+                return False
+            delivered.append(r[1])
+        return True
+
+    ctx.evaluated()
+    ctx.count("calls", 2)
+    with warnings.catch_warnings():
+        warnings.simplefilter("ignore")
+        t1, t2 = f"h{case['i']}a", f"h{case['i']}b"
+        g1 = p(Src(N1, lambda i: delayed(ident)(i, t1), trace, widen=0))
+        done1 = complete_all(t1, N1)
+        if done1 is None:
+            ctx.inconclusive("hold-setup", cfg)
+            drain(be)
+            return
+        d1, d2 = [], []
+        if not take(g1, take_before, t1, done1, d1, "first generator, before the second call"):
+            drain(be)
+            return
+        try:
+            g2 = p(Src(N2, lambda i: delayed(ident)(i, t2), trace, widen=0))
+        except RuntimeError:
+            ctx.count("second_call_rejected_while_results_held")
+            return
+        ctx.count("second_calls_while_first_generator_holds_results")
+        done2 = complete_all(t2, N2)
+        if done2 is None:
+            ctx.violation(prefix + "nontermination:stalled", f"second call never dispatched / completed its {N2} tasks; {cfg}", cfg)
+            drain(be)
+            return
+        # interleave the two consumers
+        first_then = rng.random() < 0.5
+        ok = True
+        if first_then:
+            ok = take(g1, N1 - take_before, t1, done1, d1, "first generator, after the second call")
+        ok = ok and take(g2, N2, t2, done2, d2, "second generator")
+        if ok and not first_then:
+            ok = take(g1, N1 - take_before, t1, done1, d1, "first generator, after the second call")
+        if ok:
+            for g, what in ((g1, "first"), (g2, "second")):
+                pl = Puller(g)
+                pl.start()
+                r = pl.get(DUE_WAIT)
+                if r is None or r[0] != "stop":
+                    ctx.violation(prefix + "not-exhausted", f"{what} generator gave {r} after all of its results; {cfg}", cfg)
+        drain(be)
+        ctx.sig((str(cfg), N1, N2, take_before, first_then))
 
 
 def expected_next(mode, tag, delivered, completed):
